@@ -2,7 +2,7 @@ INIT Init
 NEXT Next
 CONSTANTS
   MaxM = 4
-  Gaps = {1, 2, 3}
+  Gaps = {1, 2}
   NSet = {2, 3, 4, 5, 6}
   YVals <- MCY4
 INVARIANT ModelSatisfiesClauses
